@@ -20,7 +20,8 @@ PID = 'C10'
 RULE = ('triples (a,b,c) from one base recipe by 0-2 single-site edits; non-trivial = a and b differ by '
         'exactly one site, or carry a missing value on one or both sides at an equal position')
 ASSUMPTIONS = ['mixed int/float comparisons only with |int| <= 2**53 (NumPy == is not transitive beyond)',
-               'index/axis names are kept equal on both sides (the statement does not say whether compare_name covers them)']
+               'compare_name / compare_dtype / compare_class extend to the composed axis indices, as the equals docstrings state '
+               '("... (and all composed containers)")']
 
 KINDS = ('bool', 'int64', 'float64', '<U3', 'object', 'M8[D]', 'float32', 'int32')
 
@@ -44,7 +45,7 @@ def base_recipe(draw, kind):
     raise ValueError(kind)
 
 
-EDITS = ('cell', 'missing', 'label', 'swap', 'name', 'class', 'layout', 'dtype', 'droprow', 'collabel')
+EDITS = ('cell', 'missing', 'label', 'swap', 'name', 'class', 'layout', 'dtype', 'droprow', 'collabel', 'ixname', 'colname', 'ixdtype', 'coldtype', 'ixclass')
 
 
 @st.composite
@@ -163,6 +164,21 @@ def apply_edit(rec, kind, e, state):
             rec['index']['kind'] = 'int'
     elif op == 'name':
         rec['name'] = ['n1', 'n2', None, ('a', 1)][e['v'] % 4]
+    elif op in ('ixname', 'colname'):
+        ax = rec['index'] if op == 'ixname' else rec.get('columns')
+        if ax is not None and (ax['kind'] != 'auto' or ax['labels']):  # (an empty explicit Index would be float64, unlike the auto index)
+            ax['name'] = ['n1', 'n2', None, ('a', 1)][e['v'] % 4]
+            if ax['kind'] == 'auto' and ax['name'] is not None:
+                ax['kind'] = 'int'  # a named axis index is an explicit one
+    elif op in ('ixdtype', 'coldtype'):
+        ax = rec['index'] if op == 'ixdtype' else rec.get('columns')
+        if ax is not None and ax['kind'] in ('int', 'auto') and ax['labels']:
+            ax['kind'] = 'int'
+            state['axdtype_' + ('i' if op == 'ixdtype' else 'c')] = ['int64', 'int32', 'int16'][e['v'] % 3]
+    elif op == 'ixclass':
+        # a datetime64 axis held by a plain Index instead of IndexDate (same labels, other class)
+        if rec['index']['kind'] == 'date':
+            state['ix_plain_date'] = bool(e['v'] % 2)
     elif op == 'class':
         state['cls'] = ['plain', 'he', 'go'][e['v'] % 3]
     elif op == 'layout':
@@ -222,14 +238,37 @@ def derive(base, kind, edits, cls):
     return rec, state
 
 
+def _axis_override(rec, state, which):
+    """An explicit axis Index for the dtype / class edits, or None."""
+    ax = rec['index'] if which == 'i' else rec['columns']
+    ld = state.get('axdtype_' + which)
+    if ld and ax['kind'] == 'int':
+        return sf.Index(np.array(ax['labels'], dtype=ld), name=ax.get('name'))
+    if which == 'i' and state.get('ix_plain_date') and ax['kind'] == 'date':
+        return sf.Index(np.array(ax['labels'], dtype='M8[D]'), name=ax.get('name'))
+    return None
+
+
+def _with_axes(c, rec, kind, state):
+    oi = _axis_override(rec, state, 'i')
+    if kind == 'series':
+        return c.relabel(oi) if oi is not None else c
+    oc = _axis_override(rec, state, 'c')
+    if oi is not None:
+        c = c.relabel(index=oi)
+    if oc is not None:
+        c = c.relabel(columns=oc)
+    return c
+
+
 def build(rec, kind, state):
     cls = state.get('cls', 'plain')
     if kind == 'series':
-        return gen.build_series(rec, sf.SeriesHE if cls == 'he' else sf.Series)
+        return _with_axes(gen.build_series(rec, sf.SeriesHE if cls == 'he' else sf.Series), rec, kind, state)
     if kind == 'frame':
-        return gen.build_frame(rec, {'he': sf.FrameHE, 'go': sf.FrameGO}.get(cls, sf.Frame))
+        return _with_axes(gen.build_frame(rec, {'he': sf.FrameHE, 'go': sf.FrameGO}.get(cls, sf.Frame)), rec, kind, state)
     if kind == 'bus':
-        f = gen.build_frame(rec, sf.Frame)
+        f = _with_axes(gen.build_frame(rec, sf.Frame), rec, kind, state)
         f2 = sf.Frame.from_records([(1, 2)], columns=('p', 'q'), name='second')
         return sf.Bus.from_frames((f.rename('first'), f2), name=rec.get('name'))
     ix = gen.build_index(rec['index'], go=(cls == 'go'))
@@ -281,6 +320,18 @@ def _label_dtype(ixrec, state):
     return None
 
 
+def _axis_dtype(ax, state, which):
+    if ax['kind'] in ('int', 'auto'):
+        return (state.get('axdtype_' + which) if ax['kind'] == 'int' else None) or 'int64'
+    return None  # other kinds are never re-typed by an edit: equal on both sides
+
+
+def _axis_class(ax, state, which):
+    if ax['kind'] == 'date':
+        return 'Index' if (which == 'i' and state.get('ix_plain_date')) else 'IndexDate'
+    return None
+
+
 def ref_equal(kind, ra, sa, rb, sb, opts):
     """Reference predicate; raises Ambiguous when the statement does not determine the answer."""
     skipna = opts['skipna']
@@ -311,8 +362,16 @@ def ref_equal(kind, ra, sa, rb, sb, opts):
                 return False
     if opts['compare_name'] and not eq(canon(ra.get('name')), canon(rb.get('name'))):
         return False
-    if opts['compare_class'] and (ra['index']['kind'] == 'auto') != (rb['index']['kind'] == 'auto'):
-        pass  # both build plain Index objects; class equal
+    # the options extend to the composed axis indices (docstring: "... and all composed containers")
+    axes = ('index',) if kind == 'series' else ('index', 'columns')
+    for which, axn in zip('ic', axes):
+        xa, xb = ra[axn], rb[axn]
+        if opts['compare_name'] and not eq(canon(xa.get('name')), canon(xb.get('name'))):
+            return False
+        if opts['compare_dtype'] and _axis_dtype(xa, sa, which) != _axis_dtype(xb, sb, which):
+            return False
+        if opts['compare_class'] and _axis_class(xa, sa, which) != _axis_class(xb, sb, which):
+            return False
     return True
 
 
@@ -333,6 +392,10 @@ def n_sites(kind, ra, sa, rb, sb):
         d += x.dtype != y.dtype
     d += not eq(canon(ra.get('name')), canon(rb.get('name')))
     d += sa.get('cls') != sb.get('cls')
+    for which, axn in zip('ic', ('index',) if kind == 'series' else ('index', 'columns')):
+        d += not eq(canon(ra[axn].get('name')), canon(rb[axn].get('name')))
+        d += _axis_dtype(ra[axn], sa, which) != _axis_dtype(rb[axn], sb, which)
+        d += _axis_class(ra[axn], sa, which) != _axis_class(rb[axn], sb, which)
     return d
 
 
